@@ -239,6 +239,70 @@ static void xfree_body(void* arg) {
   if (C.exit_mode == 1) { vf_cur_what = "mi_thread_done"; mi_thread_done(); }
 }
 
+
+// ------------------------------------------------------------------------------------------------
+// scenario tiny (C02, C08): a tiny program -- one owner, 2..3 threads that free the owner's blocks -- whose schedules are
+// enumerated from outside through the script policy (preemption-bounded, victim-focused: see props.py)
+// ------------------------------------------------------------------------------------------------
+static std::atomic<int> g_tiny_go(0), g_tiny_done(0);
+struct TinyT { ThreadCtx* ctx; std::vector<MBlk> blocks; };
+static TinyT g_tiny_t[8];
+static int g_tiny_nT = 2; static long g_tiny_o_phase1 = 0, g_tiny_o_phase2 = 0; static uint64_t g_tiny_prog = 0; static std::string g_tiny_desc;
+static void tiny_t_body(void* arg) {
+  TinyT& tt = *(TinyT*)arg;
+  wait_until(g_tiny_go, 1, "tiny gate");
+  for (auto& b : tt.blocks) do_free(*tt.ctx, b, true);
+  g_tiny_done.fetch_add(1, std::memory_order_release);
+}
+static void tiny_o_body(void* arg) {
+  ThreadCtx& t = *(ThreadCtx*)arg;
+  vf_rng_t pr; vf_rng_seed(&pr, 0x7171 + g_tiny_prog);        // the program only depends on --prog
+  static const size_t sizes[] = { 16000, 8000, 2000, 64, 16000, 8000 };
+  const size_t bsz = sizes[vf_rng_below(&pr, 6)];
+  static const int counts[] = { 2, 3, 4, 5, 7, 8, 9 };
+  int nalloc = counts[vf_rng_below(&pr, 7)];
+  const int nT = g_tiny_nT;
+  char d[256]; snprintf(d, sizeof(d), "bsz=%zu nalloc=%d nT=%d ops=", bsz, nalloc, nT); g_tiny_desc = d;
+  std::vector<MBlk> bs;
+  for (int i = 0; i < nalloc; i++) { MBlk b; if (do_alloc(t, &b, nullptr, bsz)) bs.push_back(b); }
+  // give 1..2 blocks to every freeing thread (random picks), keep the rest
+  for (int k = 0; k < nT; k++) {
+    int give = 1 + (int)vf_rng_below(&pr, 2);
+    for (int g = 0; g < give && bs.size() > 0; g++) { size_t i = (size_t)vf_rng_below(&pr, bs.size()); g_tiny_t[k].blocks.push_back(bs[i]); bs[i] = bs.back(); bs.pop_back(); }
+  }
+  t.mine = bs;
+  g_tiny_o_phase1 = vf_thread_points(0);
+  g_tiny_go.store(1, std::memory_order_release);
+  vf_user_yield("tiny gate open");
+  // phase 2: the owner's own activity, racing with the frees
+  int nops = 1 + (int)vf_rng_below(&pr, 4);
+  for (int o = 0; o < nops; o++) {
+    unsigned r = (unsigned)vf_rng_below(&pr, 10);
+    if (r < 4) { MBlk b; if (do_alloc(t, &b, nullptr, bsz)) t.mine.push_back(b); g_tiny_desc += "M"; }
+    else if (r < 6) { MBlk b; if (do_alloc(t, &b, nullptr, bsz)) do_free(t, b, false); g_tiny_desc += "m"; }
+    else if (r < 7) { if (!t.mine.empty()) { size_t i = (size_t)vf_rng_below(&pr, t.mine.size()); do_free(t, t.mine[i], false); t.mine[i] = t.mine.back(); t.mine.pop_back(); } g_tiny_desc += "F"; }
+    else if (r < 8) { vf_cur_what = "mt collect"; mi_collect(false); g_collects.fetch_add(1); g_tiny_desc += "C"; }
+    else if (r < 9) { vf_cur_what = "mt collect"; mi_heap_collect(mi_heap_get_default(), false); g_collects.fetch_add(1); g_tiny_desc += "H"; }
+    else { vf_cur_what = "mt collect"; mi_collect(true); g_collects.fetch_add(1); g_tiny_desc += "X"; }
+  }
+  g_tiny_o_phase2 = vf_thread_points(0);
+  wait_until(g_tiny_done, nT, "tiny: all frees done");
+  // final phase at quiescence: take everything the page(s) can give, nothing may be handed out twice and every live block keeps its contents
+  for (auto& b : t.mine) verify(b, "tiny final (before)");
+  if (vf_rng_chance(&pr, 1, 2)) { mi_collect(false); g_collects.fetch_add(1); }
+  const int more = (bsz >= 8000 ? 14 : bsz >= 2000 ? 40 : 80);
+  for (int i = 0; i < more; i++) { MBlk b; if (do_alloc(t, &b, nullptr, bsz)) t.mine.push_back(b); }
+  for (auto& b : t.mine) verify(b, "tiny final");
+  for (auto& b : t.mine) do_free(t, b, false);
+  t.mine.clear();
+  vf_cur_what = "tiny final collect";
+  mi_collect(true);
+  CountCtx c; mi_heap_visit_blocks(mi_heap_get_default(), false, &count_visitor, &c);
+  if (c.used != 0)
+    vf_trip("remote-free-lost", "C08", "tiny program (%s): every block was freed (%llu by other threads) and the owner force-collected, but its heap still counts %zu used blocks in %zu areas",
+            g_tiny_desc.c_str(), (unsigned long long)g_frees_remote.load(), c.used, c.areas);
+}
+
 // ------------------------------------------------------------------------------------------------
 // scenario prodcons (C08): one owner heap, remote frees by consumers, heap must end empty and stay bounded
 // ------------------------------------------------------------------------------------------------
@@ -513,6 +577,13 @@ static void result_body(FILE* f) {
           C.sched.mode, C.sched.policy, (unsigned long long)st.points, (unsigned long long)st.switches, (unsigned long long)st.forced_switches, (unsigned long long)st.spurious, (unsigned long long)st.delays,
           (unsigned long long)st.sched_hash, st.budget_exceeded, st.threads_created);
   fputs("\"funcs\":{", f); vf_sched_dump_funcs(f, 14); fputs("},", f);
+  if (C.scenario == "tiny") {
+    fprintf(f, "\"tiny\":{\"prog\":%llu,\"desc\":\"%s\",\"o_phase1\":%ld,\"o_phase2\":%ld,\"script_fired\":%d,\"points\":[", (unsigned long long)g_tiny_prog, g_tiny_desc.c_str(), g_tiny_o_phase1, g_tiny_o_phase2, st.script_fired);
+    for (int i = 0; i <= g_tiny_nT; i++) fprintf(f, "%s%ld", i ? "," : "", vf_thread_points(i));
+    fputs("],\"cas\":[", f);
+    for (int i = 0; i <= g_tiny_nT; i++) fprintf(f, "%s%ld", i ? "," : "", vf_thread_cas_count(i));
+    fputs("]},", f);
+  }
   if (C.scenario == "prodcons") { fputs("\"areas_series\":[", f); for (size_t i = 0; i < g_pc_areas.size(); i += (g_pc_areas.size() > 40 ? g_pc_areas.size() / 40 : 1)) fprintf(f, "%s%zu", i ? "," : "", g_pc_areas[i]); fputs("],", f); }
   if (C.scenario == "arena") { fputs("\"claims_by_blocks\":[", f); for (int i = 1; i <= 7; i++) fprintf(f, "%s%llu", i > 1 ? "," : "", (unsigned long long)g_ar_by_len[i].load()); fputs("],", f); }
   mi_stats_t ms; memset(&ms, 0, sizeof(ms)); mi_stats_merge(); mi_stats_get(sizeof(ms), &ms);
@@ -559,7 +630,10 @@ int main(int argc, char** argv) {
   memset(&C.sched, 0, sizeof(C.sched));
   std::string mode = vf_getarg(argc, argv, "--mode", "baton"), pol = vf_getarg(argc, argv, "--policy", "targeted");
   C.sched.mode = (mode == "off" ? VF_MODE_OFF : mode == "delay" ? VF_MODE_DELAY : VF_MODE_BATON);
-  C.sched.policy = (pol == "uniform" ? VF_POL_UNIFORM : pol == "pct" ? VF_POL_PCT : VF_POL_TARGETED);
+  C.sched.policy = (pol == "uniform" ? VF_POL_UNIFORM : pol == "pct" ? VF_POL_PCT : pol == "script" ? VF_POL_SCRIPT : VF_POL_TARGETED);
+  static std::string script = vf_getarg(argc, argv, "--script", "");
+  C.sched.script = script.c_str();
+  g_tiny_prog = (uint64_t)vf_getarg_ll(argc, argv, "--prog", 1);
   C.sched.seed = C.seed;
   C.sched.p_other_den = (unsigned)vf_getarg_ll(argc, argv, "--p-other", 16);
   C.sched.p_hot_den = (unsigned)vf_getarg_ll(argc, argv, "--p-hot", 2);
@@ -575,7 +649,7 @@ int main(int argc, char** argv) {
   C.sched.hot = hot.c_str();
   if (C.threads > MAXT) C.threads = MAXT;
 
-  if (C.scenario == "xfree") REF = "C02"; else if (C.scenario == "prodcons") REF = "C08"; else if (C.scenario == "exit") REF = "C09"; else if (C.scenario == "heapdel") REF = "C10"; else REF = "C14";
+  if (C.scenario == "xfree" || C.scenario == "tiny") REF = "C02"; else if (C.scenario == "prodcons") REF = "C08"; else if (C.scenario == "exit") REF = "C09"; else if (C.scenario == "heapdel") REF = "C10"; else REF = "C14";
   static std::string refs = REF; REF = refs.c_str();
   vf_result_body = &result_body;
   vf_crash_refutes = REF;
@@ -611,6 +685,11 @@ int main(int argc, char** argv) {
     vf_thread_create(&exit_final_body, new_ctx(6));
   }
   else if (C.scenario == "arena") { for (int i = 0; i < C.threads; i++) vf_thread_create(&arena_body, new_ctx(7)); }
+  else if (C.scenario == "tiny") {
+    g_tiny_nT = (C.threads >= 4 ? 3 : 2);
+    vf_thread_create(&tiny_o_body, new_ctx(8));
+    for (int k = 0; k < g_tiny_nT; k++) { g_tiny_t[k].ctx = new_ctx(9); vf_thread_create(&tiny_t_body, &g_tiny_t[k]); }
+  }
   else vf_trip("harness", "", "unknown scenario");
   vf_run_all();
   vf_mode = 0;
@@ -620,7 +699,7 @@ int main(int argc, char** argv) {
   replay_lifetimes();
   if (C.scenario == "prodcons") prodcons_check_bounded();
   if (C.scenario == "arena") arena_probe();
-  if (C.scenario == "exit" || C.scenario == "xfree") final_exit_checks();
+  if (C.scenario == "exit" || C.scenario == "xfree" || C.scenario == "tiny") final_exit_checks();
   if (vf_err_count != 0 && C.scenario == "arena") {
     // a heap bound to a full arena reports "unable to allocate memory" (ENOMEM) for every failed claim: expected
     int n = vf_err_count; if (n > VF_MAX_ERRS) n = VF_MAX_ERRS; bool only = true;
